@@ -36,6 +36,8 @@ import (
 	"verif/h/refminers"
 
 	"com.tuntun.rangers/node/src/common"
+	"com.tuntun.rangers/node/src/consensus/access"
+	"com.tuntun.rangers/node/src/consensus/groupsig"
 	"com.tuntun.rangers/node/src/core"
 	"com.tuntun.rangers/node/src/executor"
 	"com.tuntun.rangers/node/src/middleware/types"
@@ -1255,6 +1257,10 @@ type Case struct {
 	// refund-schedule family (service level): sequence of RefundManager.Add calls
 	Sched []addStep `json:"sched,omitempty"`
 	Flush bool      `json:"flush,omitempty"`
+	// election-reader family: two sibling histories (one transaction per block, same final
+	// height); the production reader is asked about A, B, A
+	RA []Op `json:"ra,omitempty"`
+	RB []Op `json:"rb,omitempty"`
 }
 
 type nodeResult struct {
@@ -1664,6 +1670,8 @@ func run(c *fw.Ctx) {
 	}
 	// family 1: the refund schedule at service level (cheap, first)
 	schedFamily(c)
+	// family 3: the production reader consensus uses for leader election, asked about sibling states
+	readerFamily(c)
 	// family 2: histories under the configurations in which refund due heights collide
 	// (small alphabet; before the large phases so that a time cap never starves them)
 	dc := 3
@@ -1849,6 +1857,194 @@ func runSched(steps []addStep, flush bool) []finding {
 	return fs
 }
 
+// ---------------------------------------------------------------------------------
+// family 3: consensus/access.MinerPoolReader (the singleton the consensus asks for the
+// proposer total, the proposer record and the group candidates) on committed sibling states
+
+type sibling struct {
+	hist   []Op
+	root   common.Hash
+	m      *refminers.Model
+	height uint64
+}
+
+// buildClosed runs hist with one transaction per block, commits the state and returns its
+// root with the model state (nil if model and implementation disagree on a decision: the
+// search reports that).
+func buildClosed(hist []Op) *sibling {
+	w := newWorld()
+	m := cloneModel(template)
+	next := cfg.Base
+	h := uint64(0)
+	for i, o := range hist {
+		m.BeginBlock(next)
+		t := resolve(o, m)
+		tx := buildTx(t, uint64(i+1))
+		r := m.Exec(t)
+		m.EndBlock()
+		_, acc := w.realBlock(next, []*types.Transaction{tx})
+		if acc[0] != r.Accepted {
+			return nil
+		}
+		h = next
+		next += cfg.Step
+	}
+	root, err := w.db.Commit(true)
+	if err != nil {
+		harnessFail("commit: %v", err)
+	}
+	return &sibling{hist: append([]Op{}, hist...), root: root, m: m, height: h}
+}
+
+func readerAlphabet() []Op {
+	var ops []Op
+	for m := 0; m < 2; m++ {
+		for s := 1; s < 3; s++ {
+			ops = append(ops, Op{K: "apply", M: m, A: m, T: 1, S: s})
+		}
+		ops = append(ops, Op{K: "apply", M: m, A: m, T: 0, S: 1})
+		ops = append(ops, Op{K: "add", M: m, S: 1})
+		ops = append(ops, Op{K: "refund", M: m, S: 0}, Op{K: "refund", M: m, S: 1})
+		ops = append(ops, Op{K: "chg", M: m, A: 2})
+	}
+	return ops
+}
+
+// askOne asks the reader everything it offers about state s at height h and compares with
+// the model state of s.
+func askOne(rd *access.MinerPoolReader, s *sibling, h uint64, pos string, txt string) []finding {
+	var fs []finding
+	add := func(sig, format string, a ...interface{}) {
+		fs = append(fs, finding{Sig: sig, Msg: txt + " — " + fmt.Sprintf(format, a...), Diverged: true})
+	}
+	_, det := s.m.ActiveProposers(h)
+	if got := rd.GetTotalStake(h, s.root); got != uint64(len(det)) {
+		add("C20:election-reader:total-stake:"+pos, "GetTotalStake(%d, state of %s) = %d, the state has %d active proposer records", h, histString(s.hist, -1), got, len(det))
+	}
+	ids := append(append([]string{}, minerIDs...), genesisIDs...)
+	for _, id := range ids {
+		got := rd.GetProposeMiner(groupsig.DeserializeID(unhx(id)), s.root)
+		want := s.m.Miners[id]
+		if want != nil && want.Type != refminers.TypeProp {
+			want = nil
+		}
+		switch {
+		case (got == nil) != (want == nil):
+			add("C20:election-reader:lookup:propose-miner:"+pos, "GetProposeMiner(…%s, state of %s) found=%v, expected found=%v", tail(id), histString(s.hist, -1), got != nil, want != nil)
+		case got != nil && (got.Stake != want.Stake() || got.ApplyHeight != want.ApplyHeight || got.MinerType != want.Type):
+			add("C20:election-reader:lookup:propose-miner:"+pos, "GetProposeMiner(…%s, state of %s) = stake %d applyHeight %d, expected stake %d applyHeight %d", tail(id), histString(s.hist, -1), got.Stake, got.ApplyHeight, want.Stake(), want.ApplyHeight)
+		}
+	}
+	// group candidates: validators that are not aborted and whose apply height lies below h
+	// (learned: model.MinerInfo.CanJoinGroupAt is h > ApplyHeight)
+	wantC := map[string]uint64{}
+	for id, r := range s.m.Miners {
+		if r.Type == refminers.TypeVal && r.Status == refminers.StatusNormal && h > r.ApplyHeight {
+			wantC[id] = r.Stake()
+		}
+	}
+	gotC := map[string]uint64{}
+	for _, md := range rd.GetCandidateMiners(h, s.root) {
+		gotC[hx(md.ID.Serialize())] = md.Stake
+	}
+	if !sameU64Map(gotC, wantC) {
+		add("C20:election-reader:lookup:candidates:"+pos, "GetCandidateMiners(%d, state of %s) = %d validators, expected %d", h, histString(s.hist, -1), len(gotC), len(wantC))
+	}
+	return fs
+}
+
+// askABA: same reader object, same height: A, then its sibling B, then A again; at the
+// height of the siblings' last block (what consensus passes) and at a far height.
+func askABA(a, b *sibling) []finding {
+	rd := access.NewMinerPoolReader()
+	txt := fmt.Sprintf("(%s) reader asked about A = %s, then B = %s, then A again", cfg.Name, histString(a.hist, -1), histString(b.hist, -1))
+	var fs []finding
+	for _, h := range []uint64{a.height, farHeight} {
+		fs = append(fs, askOne(rd, a, h, "first", txt)...)
+		fs = append(fs, askOne(rd, b, h, "after-sibling", txt)...)
+		fs = append(fs, askOne(rd, a, h, "back-after-sibling", txt)...)
+	}
+	// one finding per signature
+	seen := map[string]bool{}
+	var out []finding
+	for _, f := range fs {
+		if !seen[f.Sig] {
+			seen[f.Sig] = true
+			out = append(out, f)
+		}
+	}
+	return out
+}
+
+func readerFamily(c *fw.Ctx) {
+	defer useConfig("p012")
+	// block heights that are multiples of the reward period: a proposer applied in the first
+	// block is active at the height of the second, so siblings differ in what is asked for
+	useConfig("period-heights")
+	ops := readerAlphabet()
+	depth := 2
+	var level [][]Op
+	level = append(level, nil)
+	var idx int64
+	pairs, states := int64(0), int64(0)
+	for d := 1; d <= depth; d++ {
+		var next [][]Op
+		for _, h := range level {
+			for _, o := range ops {
+				next = append(next, append(append([]Op{}, h...), o))
+			}
+		}
+		level = next
+		// siblings of this depth: distinct committed states with the same last block height
+		var sibs []*sibling
+		seen := map[common.Hash]bool{}
+		for _, h := range level {
+			s := buildClosed(h)
+			if s == nil || seen[s.root] {
+				continue
+			}
+			seen[s.root] = true
+			sibs = append(sibs, s)
+		}
+		if c.Shard == 0 {
+			states += int64(len(sibs))
+		}
+		for i, a := range sibs {
+			for j, b := range sibs {
+				if i == j {
+					continue
+				}
+				idx++
+				if !c.Mine(idx) {
+					continue
+				}
+				if c.Expired() {
+					c.Cap("time: election-reader family not finished")
+					return
+				}
+				fs := askABA(a, b)
+				pairs++
+				c.Eval(1)
+				c.NontrivialN(1)
+				_, da := a.m.ActiveProposers(a.height)
+				_, db := b.m.ActiveProposers(b.height)
+				c.Outcome(fmt.Sprintf("election-reader/depth%d/active-proposers-%d-then-%d", d, len(da), len(db)))
+				if len(fs) > 0 {
+					again := askABA(a, b)
+					if sigSet(again) != sigSet(fs) {
+						harnessFail("observation not reproducible: %s", fs[0].Msg)
+					}
+					for _, f := range fs {
+						c.Violation(f.Sig, "election-reader", f.Msg, Case{RA: a.hist, RB: b.hist, Cfg: cfg.Name, Open: -1})
+					}
+				}
+			}
+		}
+	}
+	c.Count("election_reader_sibling_pairs", pairs)
+	c.Count("election_reader_sibling_states", states)
+}
+
 func schedFamily(c *fw.Ctx) {
 	var syms []addStep
 	for h := 0; h < 2; h++ {
@@ -2006,6 +2202,18 @@ func replay(c *fw.Ctx, raw json.RawMessage) {
 		harnessFail("replay: %v", err)
 	}
 	setup()
+	if len(cs.RA) > 0 || len(cs.RB) > 0 {
+		useConfig(cs.Cfg)
+		a, b := buildClosed(cs.RA), buildClosed(cs.RB)
+		if a == nil || b == nil {
+			fmt.Println("replay: a sibling state cannot be built")
+			return
+		}
+		for _, f := range askABA(a, b) {
+			c.Violation(f.Sig, "replay", f.Msg, cs)
+		}
+		return
+	}
 	if len(cs.Sched) > 0 {
 		for _, f := range runSched(cs.Sched, cs.Flush) {
 			c.Violation(f.Sig, "replay", fmt.Sprintf("%s — %s", schedString(cs.Sched, cs.Flush), f.Msg), cs)
@@ -2041,7 +2249,8 @@ func main() {
 		ID: "C20", Level: "model_checking",
 		Rule: "BFS over histories of miner transactions (apply/add/refund/change-account/release over 2 miner ids x 3 plain accounts + 1 account with code, " +
 			"each history in two packings: one transaction per block, or the last k transactions in one block; additionally a small alphabet under two configurations in which refund due heights collide, " +
-			"and all sequences of <= 3 separate RefundManager.Add calls over 2 due heights x 2 accounts x 3 values followed by CheckAndMove); a state is the canonical dump of " +
+			"all sequences of <= 3 separate RefundManager.Add calls over 2 due heights x 2 accounts x 3 values followed by CheckAndMove, " +
+			"and all ordered pairs of distinct committed sibling states (histories of depth 1 and 2, same last block height) put to the consensus reader access.MinerPoolReader in the order A, B, A); a state is the canonical dump of " +
 			"the registry storage (cached slots + committed trie of both registry accounts), the id->public-key side index (pkCache, read through GetPubkey) of the registered ids, escrow records and fee-free balances plus the model state; " +
 			"counted as non-trivial: distinct states that hold at least one harness-created miner record or a scheduled refund " +
 			"(the `states` counter is per worker, distinct_nontrivial is de-duplicated across workers)",
